@@ -36,6 +36,8 @@ func runC20(c *Ctx) {
 	c20ServeRetry(c)
 	c20ReadyChannels(c)
 	c20HTTPStop(c)
+	// "a shutdown signal cancels all tasks and serving returns success": also for a task that is in its dial back-off
+	initCancelReturnsErr(c, "R-C20-7")
 }
 
 // newDialerMode returns the constant mode passed to the NewDialer call that
